@@ -18,7 +18,9 @@ from pathlib import Path
 
 ROOT = Path(__file__).resolve().parents[2]
 SPECS = ROOT / "specs"
-BUILD = ROOT / "build"
+# (VERIF_BUILD_DIR / VERIF_OUT_DIR: only for tools/ that evaluate patched scratch copies in parallel; the registered
+#  commands never set them)
+BUILD = Path(os.environ["VERIF_BUILD_DIR"]) if os.environ.get("VERIF_BUILD_DIR") else ROOT / "build"
 JAR = "/opt/veriftools/tla/tla2tools.jar"
 CP = f"{JAR}:/opt/veriftools/tla/CommunityModules-deps.jar"
 
